@@ -163,18 +163,27 @@ class ScriptSim(mosaik_api_v3.Simulator):
             yield self.mosaik.set_data(req[2])
         elif req[0] == "get_data":
             self.ctl.emit(("get_data_req", self.sid, req[1]))
-            yield self.mosaik.get_data(req[2])
+            # on a cache miss mosaik forwards the request to the other simulator's get_data() (outside
+            # the scheduler's own step/get_data cycle): that call is answered at once and is no scheduler event
+            self.ctl.passthrough = f"S{req[1]}"
+            try:
+                yield self.mosaik.get_data(req[2])
+            finally:
+                self.ctl.passthrough = None
         elif req[0] == "set_event":
             self.ctl.emit(("set_event", self.sid, req[1]))
             yield self.mosaik.set_event(req[1])
 
     def get_data(self, outputs):
-        beh = self.out
+        beh = getattr(self, "out", {})
         d = {}
         for eid, attrs in outputs.items():
             for a in attrs:
                 if (eid, a) in beh.get("out", {}):
                     d.setdefault(eid, {})[a] = beh["out"][(eid, a)]
+        if getattr(self.ctl, "passthrough", None) == self.sid:
+            self.ctl.passthrough = None
+            return d
         if "out_time" in beh:
             d["time"] = beh["out_time"]
         yield self.ctl.gate(self.sid, "get_data", copy.deepcopy(d))
